@@ -1099,6 +1099,25 @@ def gen_const_chain(rng, n, order):
     return {"rules": [], "items": items}
 
 
+def gen_slice_consts(rng):
+    """constants that index a slice through other constants, declared in a random order
+    (`top = word[hi:lo]`, `hi = lo + 7`, `lo = 8`, `word = 0x...`), the result emitted as data"""
+    lo = rng.choice([0, 1, 4, 8, 12])
+    w = rng.choice([0, 3, 7, 15])
+    decl = [_item(k="const", lvl=0, name="word", e={"k": "num", "text": list("0x%08x" % rng.getrandbits(32))}),
+            _item(k="const", lvl=0, name="lo", e={"k": "num", "text": list(str(lo))}),
+            _item(k="const", lvl=0, name="hi", e=_cmp("add", var("lo"), numlit(str(w)))),
+            _item(k="const", lvl=0, name="top", e={"k": "slice", "e": var("word"), "l": var("hi"), "r": var("lo")})]
+    if rng.random() < 0.4:
+        decl.append(_item(k="const", lvl=0, name="cut", e={"k": "sshort", "e": var("word"), "n": var("hi")}))
+    rng.shuffle(decl)
+    use = [_item(k="data", w=-1, es=[var("top")])]
+    if any(d["name"] == "cut" for d in decl):
+        use.append(_item(k="data", w=32, es=[var("cut")]))
+    items = decl + use if rng.random() < 0.5 else use + decl
+    return {"rules": [], "items": items}
+
+
 def move_free_constant(rng, P):
     """C15: a global constant that depends on no address and has no nested
     children is moved to the start or the end of the file.  Returns the moved
